@@ -633,9 +633,17 @@ where
                                 | ConnectionState::Opened
                                 | ConnectionState::CloseReceived
                                 | ConnectionState::CloseSent => Err(ConnectionInnerError::IllegalState),
-                                ConnectionState::ClosePipe
-                                | ConnectionState::Discarding
-                                | ConnectionState::End => Ok(Running::Stop),
+                                // Our close (with an error) is out but the peer's never came: the
+                                // close exchange was not completed, which is not a clean end
+                                ConnectionState::ClosePipe | ConnectionState::Discarding => {
+                                    Err(ConnectionInnerError::TransportError(transport::Error::Io(
+                                        io::Error::new(
+                                            io::ErrorKind::UnexpectedEof,
+                                            "Expecting remote close",
+                                        ),
+                                    )))
+                                }
+                                ConnectionState::End => Ok(Running::Stop),
                             }
                         },
                     };
